@@ -355,3 +355,64 @@ def check_fresh_generated(ck: Checker, rule, modules):
                  (f'decorated with {decos}: repeated calls hand out the same mutable Circuit object' if decos else f'returns `{norm(rets[0].value) if rets else None}`, not a local Circuit()'),
                  construct=f'{q} returns a fresh circuit')
     return n
+
+
+# ---------------------------------------------------------------------------
+# multiplicity
+
+
+_DEDUP = {'set', 'frozenset', 'SortedSet', 'SortedKeyList.__unique__', 'fromkeys', 'unique_everseen', 'unique_justseen', 'OrderedSet'}
+
+
+def _mentions(e, names):
+    """Does `e` read one of `names` other than through len(...)?"""
+    skip = set()
+    for n in ast.walk(e):
+        if isinstance(n, ast.Call) and call_name(n) == 'len':
+            skip |= {id(x) for x in ast.walk(n)}
+    return any(isinstance(n, ast.Name) and n.id in names and id(n) not in skip for n in ast.walk(e))
+
+
+def dedup_sites(fn):
+    """Calls of a de-duplicating constructor on a value derived from the function's parameters."""
+    tainted = {a.arg for a in fn.args.posonlyargs + fn.args.args + fn.args.kwonlyargs} - {'circuit', 'self', 'basis', 'big_endian'}
+    changed = True
+    while changed:
+        changed = False
+        for n in ast.walk(fn):
+            tgts, val = [], None
+            if isinstance(n, ast.Assign):
+                tgts, val = n.targets, n.value
+            elif isinstance(n, (ast.AnnAssign, ast.AugAssign)) and n.value is not None:
+                tgts, val = [n.target], n.value
+            elif isinstance(n, (ast.For, ast.comprehension)):
+                tgts, val = [n.target], n.iter
+            if val is None or not _mentions(val, tainted):
+                continue
+            for t in tgts:
+                for x in ast.walk(t):
+                    if isinstance(x, ast.Name) and x.id not in tainted:
+                        tainted.add(x.id)
+                        changed = True
+    out = []
+    for c in ast.walk(fn):
+        if isinstance(c, ast.Call) and call_name(c) in _DEDUP and any(_mentions(a, tainted) for a in list(c.args) + [k.value for k in c.keywords]):
+            out.append(c)
+        elif isinstance(c, (ast.SetComp, ast.Set)) and _mentions(c, tainted):
+            out.append(c)
+    return out
+
+
+def check_multiset(ck: Checker, rule, modules):
+    """Operands are gate labels and the same gate may be listed several times (x + x, a weight repeated):
+    no generator may push its operands through a container that drops repeated entries."""
+    probe = ast.parse('def f(circuit, xs):\n    ys = [(0, x) for x in xs]\n    s = SortedSet(ys)\n    t = set(range(len(xs)))\n').body[0]
+    ck.need(len(dedup_sites(probe)) == 1, f'{rule}: probe for de-duplicating constructors does not discriminate (checker defect)')
+    n = 0
+    for m, q, fn in gen_functions(ck.repo, modules):
+        n += 1
+        sites = dedup_sites(fn)
+        ck.check(not sites, rule, m, sites[0] if sites else fn, f'{q} keeps every occurrence of a repeated operand (no set-like container on operand-derived values)',
+                 f'`{norm(sites[0])[:100]}` drops repeated entries: an operand gate listed twice (same label, same weight) is counted once' if sites else '',
+                 construct=f'{q} operand multiplicity')
+    return n
